@@ -88,11 +88,14 @@ static void swp(void *a, void *b, void *t, size_t len)
 }
 /* ---- rand() under the driver's control ---- */
 #define MAXD 16
-static int draws[MAXD], ndrawn, maxdraws;
+static int draws[MAXD], ndrawn, maxdraws, drawspan = 1 << 30;
 int __wrap_rand(void)
 {
+    /* draws[] holds an index into the values rand() may produce: 0..drawspan-1 as themselves, then RAND_MAX and
+     * RAND_MAX - 1 (legal return values an index computation must survive) */
     int v = ndrawn < maxdraws && ndrawn < MAXD ? draws[ndrawn] : 0;
     ndrawn++;
+    if (v >= drawspan) v = v == drawspan ? RAND_MAX : RAND_MAX - 1;
     return v;
 }
 static sigjmp_buf jb;
@@ -193,7 +196,11 @@ static void run_sort(const int *vals, size_t n, size_t esz, int algo, int via, i
         }
         alarm(0);
         fputs("\"dr\":[", out);
-        for (i = 0; i < (size_t)ndrawn && i < MAXD; i++) fprintf(out, "%s%d", i ? "," : "", i < (size_t)maxdraws ? draws[i] : 0);
+        for (i = 0; i < (size_t)ndrawn && i < MAXD; i++) {
+            int v = i < (size_t)maxdraws ? draws[i] : 0;
+            if (v >= drawspan) v = v == drawspan ? RAND_MAX : RAND_MAX - 1;
+            fprintf(out, "%s%d", i ? "," : "", v);
+        }
         fputs("],", out);
         put_arr("A1"); fputs(",", out); put_ids();
         end_rec("ok", full_events);
@@ -262,11 +269,12 @@ int main(int argc, char **argv)
                         if (si > 1) continue;                 /* every draw sequence: element sizes 1 and 2 */
                         /* enumerate every sequence of draws rand() can produce (values 0..len-1) */
                         memset(draws, 0, sizeof draws);
+                        drawspan = len > 0 ? len : 1;
                         for (;;) {
                             int pos;
                             run_sort(vals, (size_t)len, esz, 1, via, 1);
                             pos = (ndrawn < maxdraws ? ndrawn : maxdraws) - 1;
-                            while (pos >= 0 && draws[pos] >= (len > 0 ? len - 1 : 0)) pos--;
+                            while (pos >= 0 && draws[pos] >= drawspan + 1) pos--;
                             if (pos < 0) break;
                             draws[pos]++;
                             for (k = pos + 1; k < MAXD; k++) draws[k] = 0;
